@@ -11,15 +11,22 @@
    adjacency read by the algorithm has indexes in range (checked by the model itself) and
    lists each neighbour once per row (the shape of successors_vec; checked per case,
    observation 53, and sound by C05_rows_check_sound).
-   WEIGHTED MODE (heap stage with the sigma-doubling quirk): the statement
-     forall g (positive costs), bc_core lw true g = Some bet ->
-       Forall2 Qeq (rescale bet n normalized directed) (bc_def g normalized directed)
-   is NOT proved; it is validated per generated graph inside Coq in exact rationals
-   (observation 52; [bc_def_tab] is the definition by C05_def_executed_form), and the heap's
-   tie choice is checked to be unobservable per case (observation 51). *)
+   WEIGHTED MODE IS PROVED IN FULL AS WELL (C05_brandes_weighted, C05_model_weighted), for every
+   graph whose costs are strictly positive integers (an edge weight of the model is an integer;
+   positivity checked per case, observation 53, sound by C05_rows_pos_check_sound), with the same
+   row-shape hypothesis, and for EVERY tie choice of the BinaryHeap: the heap stage finalises the
+   true distances, S lists the reachable nodes in non-decreasing distance, P[w] = the tight
+   incoming edges, sigma[w] = 2 * #SP(src,w) — the factor 2 comes from `sigma[v] += sigma[pred]`
+   at the pop of the source's own entry (pred = source: 1 + 1) and is inherited by every other
+   node, whose own share from its discoverer is added only at its pop (tentative entries are reset
+   to 0 / [v] on a strict improvement and extended on a tie) — Brandes' recurrence does not see a
+   uniform factor (C05_recurrence_ignores_uniform_sigma_factor), and Brandes' lemma holds in the
+   weighted shortest-path DAG (Proofs/BrandesDag.v, generic in the DAG).  Observation 52 (model =
+   definition evaluated per generated graph) and 51 (tie choice unobservable) remain as
+   correspondence checks. *)
 From Coq Require Import String List Bool ZArith Arith QArith.
 From GV Require Import Base.Outcome Base.AMap Model.GState Model.Query Model.Cent Model.Brandes.
-From GV Require Import Spec.BetweennessDef Spec.ClosenessDef Proofs.BrandesOk Proofs.BrandesAccOk Proofs.ClosenessBfsOk Proofs.BrandesBfsOk Proofs.PathsOk Proofs.BrandesLemma Proofs.BrandesLemma2 Proofs.BrandesFull Proofs.DijkstraOk.
+From GV Require Import Spec.BetweennessDef Spec.ClosenessDef Proofs.BrandesOk Proofs.BrandesAccOk Proofs.ClosenessBfsOk Proofs.BrandesBfsOk Proofs.PathsOk Proofs.BrandesLemma Proofs.BrandesLemma2 Proofs.BrandesFull Proofs.DijkstraOk Proofs.BrandesHeapOk Proofs.BrandesDag Proofs.PathsWOk Proofs.BrandesWeighted.
 Import ListNotations.
 
 (* ---- the definition ---- *)
@@ -182,10 +189,8 @@ Theorem C05_model_hop_count : forall (T A : Type) lw (gs : gstate T A) normalize
      Forall2 Qeq (map snd m) (bc_def a normalized (directed (sp gs)))).
 Proof. intros T A. exact (@model_hop_count T A). Qed.
 
-(* ---- weighted mode, partial: the heap stage finalises the true shortest distances, for every
-   tie choice of the BinaryHeap (what is missing for the full weighted statement: the P / sigma
-   part of the stage invariant with the uniform factor 2, and Brandes' lemma for weighted
-   shortest-path DAGs) ---- *)
+(* ---- weighted mode: the heap stage finalises the true shortest distances, for every tie choice of the
+   BinaryHeap (kept under its round-1 name; it is one part of the full weighted statement below) ---- *)
 Theorem C05_stage_dijkstra_distances_partial : forall (g : qadj) (src : nat),
   adj_ok (length g) g = true -> (src < length g)%nat ->
   (forall v e, In e (get [] g v) -> exists c, snd e = inject_Z c /\ (0 < c)%Z) ->
@@ -195,3 +200,125 @@ Theorem C05_stage_dijkstra_distances_partial : forall (g : qadj) (src : nat),
   (forall w x, oget (dz s) w = Some x -> w <> src -> (0 < x)%Z) /\
   (forall w q, DD s w = Some q -> q = inject_Z (Qnum q)).
 Proof. exact dijkstra_distances. Qed.
+
+(* ---- weighted mode: the single-source stage `dijkstra`, for every graph with positive integer costs
+   and one entry per neighbour, every source and every tie choice of the heap ---- *)
+
+Theorem C05_stage_dijkstra_stack : forall (g : qadj) (src : nat),
+  adj_ok (length g) g = true -> (src < length g)%nat ->
+  (forall v e, In e (get [] g v) -> exists c, snd e = inject_Z c /\ (0 < c)%Z) ->
+  (forall v, NoDup (map fst (get [] g v))) ->
+  forall lw s, bdijkstra lw g src = Some s ->
+  NoDup (bS s) /\ (forall w, In w (bS s) <-> DD s w <> None) /\
+  sorted_z (dzv s) (bS s) /\ (forall w, In w (bS s) -> (w < length g)%nat).
+Proof. exact wstage_S. Qed.
+
+Theorem C05_stage_dijkstra_predecessors : forall (g : qadj) (src : nat),
+  adj_ok (length g) g = true -> (src < length g)%nat ->
+  (forall v e, In e (get [] g v) -> exists c, snd e = inject_Z c /\ (0 < c)%Z) ->
+  (forall v, NoDup (map fst (get [] g v))) ->
+  forall lw s, bdijkstra lw g src = Some s ->
+  forall w, NoDup (get [] (bP s) w) /\
+    forall u, In u (get [] (bP s) w) <->
+      exists c du, In (w, inject_Z c) (get [] g u) /\ DD s u = Some (inject_Z du) /\ DD s w = Some (inject_Z (du + c)).
+Proof. exact wstage_P. Qed.
+
+(* the doubling quirk: 2 at the source, and the plain recursion everywhere else *)
+Theorem C05_stage_dijkstra_sigma : forall (g : qadj) (src : nat),
+  adj_ok (length g) g = true -> (src < length g)%nat ->
+  (forall v e, In e (get [] g v) -> exists c, snd e = inject_Z c /\ (0 < c)%Z) ->
+  (forall v, NoDup (map fst (get [] g v))) ->
+  forall lw s, bdijkstra lw g src = Some s ->
+  get 0 (bsig s) src == 2 /\
+  forall w, w <> src -> get 0 (bsig s) w == Qsum (map (get 0 (bsig s)) (get [] (bP s) w)).
+Proof. exact wstage_sigma. Qed.
+
+(* hence sigma[t] = 2 * (number of shortest src-t paths of the definition), for every node t *)
+Theorem C05_stage_dijkstra_sigma_counts_paths : forall (g : qadj) (src : nat),
+  adj_ok (length g) g = true -> (src < length g)%nat ->
+  (forall v e, In e (get [] g v) -> exists c, snd e = inject_Z c /\ (0 < c)%Z) ->
+  (forall v, NoDup (map fst (get [] g v))) ->
+  forall lw s, bdijkstra lw g src = Some s ->
+  forall t, get 0 (bsig s) t == 2 * qn (length (spec_sp g src t)).
+Proof. exact sigma_counts_w. Qed.
+
+(* the enumeration behind the definition is exact for positive integer costs: SP s t is, without
+   repetition, the set of simple s-t paths of minimal weight *)
+Theorem C05_def_shortest_paths_exact_weighted : forall (g : qadj),
+  adj_ok (length g) g = true -> (forall v, NoDup (map fst (get [] g v))) ->
+  (forall v e, In e (get [] g v) -> exists c, snd e = inject_Z c /\ (0 < c)%Z) ->
+  forall s t mz, (s < length g)%nat ->
+  (exists p0, path_from_to g p0 s t /\ NoDup p0 /\ pwz g p0 = mz) ->
+  (forall p, path_from_to g p s t -> NoDup p -> (mz <= pwz g p)%Z) ->
+  NoDup (spec_sp g s t) /\
+  forall p, In p (spec_sp g s t) <-> path_from_to g p s t /\ NoDup p /\ pwz g p = mz.
+Proof. exact spec_sp_char_w. Qed.
+
+(* Brandes' recurrence does not see a uniform factor on sigma: for any predecessor lists P with a
+   rank that increases along them and any sigma with sigma[src] = c0 <> 0, sigma[w] = sum over P[w],
+   its right-hand side equals the one written with the path counts N *)
+Theorem C05_recurrence_ignores_uniform_sigma_factor :
+  forall (n src : nat) (Pl : list (list nat)) (rk : nat -> option nat),
+  (src < n)%nat -> rk src <> None ->
+  (forall w u, In u (get [] Pl w) -> exists i j, rk u = Some i /\ rk w = Some j /\ (i < j)%nat) ->
+  (forall w k, rk w = Some k -> w <> src -> get [] Pl w <> []) ->
+  forall (sigl : list Q) (c0 : Q), ~ c0 == 0 -> get 0 sigl src == c0 ->
+  (forall w, w <> src -> get 0 sigl w == Qsum (map (fun u => get 0 sigl u) (get [] Pl w))) ->
+  forall (X : nat -> Q) (v : nat), rec_rhs n Pl sigl X v == rec_rhsN n src Pl rk X v.
+Proof. exact rec_rhs_factor. Qed.
+
+(* what one source adds to every node: exactly its row of the definition's double sum *)
+Theorem C05_source_contribution_weighted : forall (g : qadj) (src : nat),
+  adj_ok (length g) g = true -> (src < length g)%nat ->
+  (forall v e, In e (get [] g v) -> exists c, snd e = inject_Z c /\ (0 < c)%Z) ->
+  (forall v, NoDup (map fst (get [] g v))) ->
+  forall lw s, bdijkstra lw g src = Some s ->
+  forall bet, length bet = length g -> forall v,
+  get 0 (accumulate src (bS s) (bP s) (bsig s) bet) v ==
+  get 0 bet v + Qsum (map (fun t => pair_term g v src t) (seq 0 (length g))).
+Proof. exact source_contribution_w. Qed.
+
+(* the fuel the model passes (2 + |E| + n pops) is never exhausted: every pop either drops a stale
+   entry or finalises a node, and a finalised node pushes at most one entry per adjacency entry *)
+Theorem C05_stage_dijkstra_total : forall (g : qadj) (src : nat),
+  adj_ok (length g) g = true -> (src < length g)%nat ->
+  (forall v e, In e (get [] g v) -> exists c, snd e = inject_Z c /\ (0 < c)%Z) ->
+  forall lw, exists s, bdijkstra lw g src = Some s.
+Proof. exact bdijkstra_total. Qed.
+
+Theorem C05_weighted_total : forall (g : qadj),
+  adj_ok (length g) g = true ->
+  (forall v e, In e (get [] g v) -> exists c, snd e = inject_Z c /\ (0 < c)%Z) ->
+  forall lw, exists bet, bc_core lw true g = Some bet.
+Proof. exact weighted_core_total. Qed.
+
+(* ---- weighted mode, in full ---- *)
+Theorem C05_brandes_weighted : forall (g : qadj),
+  adj_ok (length g) g = true -> (forall v, NoDup (map fst (get [] g v))) ->
+  (forall v e, In e (get [] g v) -> exists c, snd e = inject_Z c /\ (0 < c)%Z) ->
+  forall lw bet normalized directed,
+  bc_core lw true g = Some bet ->
+  Forall2 Qeq (rescale bet (length g) normalized directed) (bc_def g normalized directed).
+Proof. exact brandes_weighted. Qed.
+
+Theorem C05_model_weighted : forall (T A : Type) lw (gs : gstate T A) normalized m,
+  betweenness_centrality lw gs true normalized = Ok m ->
+  exists a, conv_adj true (successors_vec gs) = Some a /\
+    (rows_nodup a = true -> rows_pos a = true ->
+     Forall2 Qeq (map snd m) (bc_def a normalized (directed (sp gs)))).
+Proof. intros T A. exact (@model_weighted T A). Qed.
+
+(* the per-case check of observation kind 53 (weighted cases) establishes the positivity hypothesis *)
+Theorem C05_rows_pos_check_sound : forall g : qadj,
+  rows_pos g = true -> forall v e, In e (get [] g v) -> 0 < snd e.
+Proof. exact rows_pos_sound. Qed.
+
+(* the hypotheses are met and both stage and result are as described on a graph where a tentatively
+   tied node is later reached along a strictly shorter route (both tie choices of the heap) *)
+Theorem C05_weighted_nonvacuous :
+  adj_ok (length ex_wg) ex_wg = true /\ rows_nodup ex_wg = true /\ rows_pos ex_wg = true /\
+  (forall v e, In e (get [] ex_wg v) -> exists c, snd e = inject_Z c /\ (0 < c)%Z) /\
+  (exists s, bdijkstra false ex_wg 0 = Some s /\ bS s = [0; 1; 2; 4; 3; 5]%nat /\ get 0 (bsig s) 3 == 2 /\ get [] (bP s) 3 = [4%nat]) /\
+  (exists bet, bc_core false true ex_wg = Some bet /\ get 0 bet 4%nat == 2 /\ get 0 bet 1%nat == 0) /\
+  (exists bet, bc_core true true ex_wg = Some bet /\ get 0 bet 4%nat == 2 /\ get 0 bet 1%nat == 0).
+Proof. exact ex_weighted_hyps. Qed.
